@@ -667,6 +667,24 @@ class Body:
                     work.append((gg, subst(t, lambda x, ph=ph, t2=t2: t2 if x == ph else None), bi))
         return out
 
+    def expand_term(self, g, term, limit=64):
+        """[(guard, term)]: `term` (valid under guard g) with every phi of a multiply-assigned local split into one case per
+        assignment of that local - the value-level counterpart of expanded_cases"""
+        work = [(g, term)]
+        out = []
+        while work:
+            g1, t = work.pop(0)
+            phis = [x for x in subterms(t) if x[0] == "phi" and len(x) > 2 and x[2] is not None]
+            if not phis or len(out) + len(work) > limit:
+                out.append((g1, t))
+                continue
+            ph = phis[0]
+            for g2, t2, bi2 in self.local_cases(ph[2]):
+                gg = dnf_and(g1, g2)
+                if gg:
+                    work.append((gg, subst(t, lambda x, ph=ph, t2=t2: t2 if x == ph else None)))
+        return out
+
     def rvalue_term(self, rv, depth=0, site=None):
         r = rv["r"]
         if r == "use":
